@@ -1,6 +1,7 @@
 import FuModel.Spec.RunRef
 import FuModel.Proofs.ExecOnceWalk
 import FuModel.Proofs.ExecOnceExact
+import FuModel.Proofs.PruneEntered
 
 /-!
 # C09 — -exec … ; : one run per file, {} substituted, argv intact, true iff 0
@@ -112,12 +113,24 @@ example : substArg [97, 47, 98] [120, 123, 125, 121, 123, 125, 123] = [120, 97, 
 theorem C09_whole_walk (dir : Bool) (cmd : Bytes) (tmpl : List Bytes) (start : Bytes)
     (c : Config) (m : FuModel.Find.Expr.M Prim) (root : Node Attr) (g : GS)
     (hall : m.AllP (SoleOnce dir cmd tmpl)) (hone : m.weight wT ≤ 1)
-    (hwalk : ((refCfg c).depthFirst = false ∧ PruneOk (refCfg c) (evalEntry m start)) ∨
+    (hwalk : ((refCfg c).depthFirst = false ∧ PruneOkN (refCfg c) (evalEntry m start) [] 0 (if c.sorted then sortNode root else root)) ∨
              ((refCfg c).depthFirst = true ∧ ¬ HRootLink (refCfg c) (if c.sorted then sortNode root else root))) :
     let n := if c.sorted then sortNode root else root
     ∃ L, (processDir c m start (some root) g).gs.execs = g.execs ++ L ∧
       L.Sublist ((visitsN (refCfg c) [] 0 n).map (eventOf dir cmd tmpl start)) :=
   whole_walk_once dir cmd tmpl start c m root g hall hone hwalk
+
+/-- `C09_whole_walk` on a well-formed world: in pre-order no hypothesis on the expression is left
+    (`-prune` included) -/
+theorem C09_whole_walk_wf (dir : Bool) (cmd : Bytes) (tmpl : List Bytes) (start : Bytes)
+    (c : Config) (m : FuModel.Find.Expr.M Prim) (root : Node Attr) (g : GS)
+    (hall : m.AllP (SoleOnce dir cmd tmpl)) (hone : m.weight wT ≤ 1)
+    (hpre : (refCfg c).depthFirst = false) (hw : wfNode root = true) :
+    let n := if c.sorted then sortNode root else root
+    ∃ L, (processDir c m start (some root) g).gs.execs = g.execs ++ L ∧
+      L.Sublist ((visitsN (refCfg c) [] 0 n).map (eventOf dir cmd tmpl start)) :=
+  whole_walk_once dir cmd tmpl start c m root g hall hone
+    (Or.inl ⟨hpre, pruneOkN_of_wf (refCfg c) m start [] 0 _ (by split; exact wf_sortNode _ hw; exact hw)⟩)
 
 /-- non-vacuity of `C09_whole_walk`: `find t -depth -name a -exec c x{} ;` meets the hypotheses -/
 example :
